@@ -7,8 +7,8 @@ cd $wt || exit 2
 demo=$(git status --porcelain | grep '^??' | grep _test.go | awk '{print $2}' | head -1)
 [ -z "$demo" ] && { echo "no demo test in worktree"; exit 2; }
 mod=$(dirname $demo)
-# make sure the change is applied
-git diff --quiet && git apply $out/patch.diff
+# make sure exactly the delivered change is applied (the worktrees share one stash; agents have mixed them up)
+git checkout -- . && git apply $out/patch.diff || { echo "patch.diff does not apply to HEAD"; exit 2; }
 names=$(grep -ho "^func Test[A-Za-z0-9_]*" $demo | sed 's/func //' | paste -sd'|')
 echo "demo=$demo tests=$names"
 mv $demo /tmp/seed/$id.demo.go.bak
